@@ -13,6 +13,7 @@ import (
 	"runtime/debug"
 	"strings"
 	"sync"
+	"time"
 
 	segment "github.com/blevesearch/scorch_segment_api/v2"
 	zap "github.com/blevesearch/zapx/v16"
@@ -246,6 +247,15 @@ func runRefCount(walksPath, tablesPath, dir, outPath string, stress int) {
 		diffs = append(diffs, rcDiff{Step: -1, What: "Close of an in-memory segment", Got: err.Error()})
 	}
 	// concurrent holders and readers
+	synName := ""
+	for i := range tb.Batch {
+		for j := range tb.Batch[i].Fields {
+			if tb.Batch[i].Fields[j].Kind == KindSyn {
+				synName = string(tb.Batch[i].Fields[j].Name)
+			}
+		}
+	}
+	blocked := false
 	for round := 0; round < stress; round++ {
 		path := filepath.Join(dir, fmt.Sprintf("rc-s%d.zap", round))
 		os.WriteFile(path, data, 0o600)
@@ -260,10 +270,23 @@ func runRefCount(walksPath, tablesPath, dir, outPath string, stress int) {
 		}
 		var wg sync.WaitGroup
 		var mu sync.Mutex
+		start := make(chan struct{})
 		for h := 0; h < holders; h++ {
 			wg.Add(1)
 			go func(h int) {
 				defer wg.Done()
+				<-start
+				// all holders go for the (cold) thesaurus at once: the lazily filled caches are created here
+				if ts, ok := seg.(segment.ThesaurusSegment); ok && synName != "" {
+					func() {
+						defer func() { recover() }()
+						if th, err := ts.Thesaurus(synName); err == nil && th != nil {
+							if sl, err := th.SynonymsList([]byte{97}, nil, nil); err == nil && sl != nil {
+								sl.Iterator(nil).Next()
+							}
+						}
+					}()
+				}
 				for k := 0; k < 3; k++ {
 					if bad := readAll(seg, &tb); bad != "" {
 						mu.Lock()
@@ -291,19 +314,44 @@ func runRefCount(walksPath, tablesPath, dir, outPath string, stress int) {
 				}
 			}(h)
 		}
-		if round%2 == 0 {
-			if err := seg.Close(); err != nil {
-				diffs = append(diffs, rcDiff{Step: -2, What: "Close returned an error", Got: err.Error()})
+		close(start)
+		// a holder that never returns (a lock left behind, say) is a violation of "remains readable / is released":
+		// the round gets 30 s, then the run reports it and stops
+		finished := make(chan struct{})
+		go func() {
+			defer close(finished)
+			if round%2 == 0 {
+				if err := seg.Close(); err != nil {
+					mu.Lock()
+					diffs = append(diffs, rcDiff{Step: -2, What: "Close returned an error", Got: err.Error()})
+					mu.Unlock()
+				}
+				wg.Wait()
+			} else {
+				wg.Wait()
+				if mappingsOf(path) != 1 {
+					mu.Lock()
+					diffs = append(diffs, rcDiff{Step: -2, What: "mappings while the opener's reference is held", Got: fmt.Sprint(mappingsOf(path)), Want: "1"})
+					mu.Unlock()
+				}
+				if err := seg.Close(); err != nil {
+					mu.Lock()
+					diffs = append(diffs, rcDiff{Step: -2, What: "Close returned an error", Got: err.Error()})
+					mu.Unlock()
+				}
 			}
-			wg.Wait()
-		} else {
-			wg.Wait()
-			if mappingsOf(path) != 1 {
-				diffs = append(diffs, rcDiff{Step: -2, What: "mappings while the opener's reference is held", Got: fmt.Sprint(mappingsOf(path)), Want: "1"})
-			}
-			if err := seg.Close(); err != nil {
-				diffs = append(diffs, rcDiff{Step: -2, What: "Close returned an error", Got: err.Error()})
-			}
+		}()
+		select {
+		case <-finished:
+		case <-time.After(30 * time.Second):
+			mu.Lock()
+			diffs = append(diffs, rcDiff{Step: -2, What: "holders blocked: a read or a release did not return within 30 s", Got: fmt.Sprint("mappings ", mappingsOf(path)), Want: "all holders done, mapping released"})
+			mu.Unlock()
+			stress = round + 1
+			blocked = true
+		}
+		if blocked {
+			break
 		}
 		if m, f := mappingsOf(path), fdsOf(path); m != 0 || f != 0 {
 			diffs = append(diffs, rcDiff{Step: -2, What: "mapping / descriptor left after the last release", Got: fmt.Sprint(m, f), Want: "0 0"})
